@@ -328,7 +328,8 @@ def intern_env(env, I):
 
 def make_pattern(spec):
     import fst.match as fm
-    ns = {k: getattr(fm, k) for k in dir(fm) if k.startswith('M')}
+    ns = {k: v for k, v in vars(ast).items() if isinstance(v, type) and issubclass(v, ast.AST)}
+    ns.update({k: getattr(fm, k) for k in dir(fm) if k.startswith('M')})
     ns.update({'Load': ast.Load, 'Store': ast.Store, 'Del': ast.Del, 'Name': ast.Name, 'Attribute': ast.Attribute})
     return eval(spec, ns)
 
